@@ -79,6 +79,23 @@ def ports(ctx) -> int:
         n += 1
         ctx.check(ok, "C23.port-options", fn.site, f"BaseMultiportMemory.{meth}", found="; ".join(tstr(ex.obj(r.value).ctor if ex.obj(r.value) is not None else r.value)[:160] for ex, r in rets) or "no port returned",
                   required=f"{cls}(memory=self, {opt}={opt}, ...)")
+    # granule units: Amaranth counts `granularity` in array elements for an ArrayLayout row shape and in bits otherwise.
+    # A write port whose enable is sized as width // granularity on the CAST shape counts bits for every shape.
+    base = Fn(ctx.repo, REL, "BaseMultiportMemory.__init__", "C23")
+    cast = any(pmatch("Shape.cast(Q_s)", s.value) is not None for ex in base.exs for s in ex.of(Store) if s.target == ("a", ("self",), "shape"))
+    wp = Fn(ctx.repo, REL, "WritePort.__init__", "C23")
+    sized_in_bits = False
+    site = wp.site
+    for ex in wp.exs:
+        for s in ex.of(Store):
+            if s.target == ("a", ("self",), "en") and ex.obj(s.value) is not None:
+                c = ex.obj(s.value).ctor
+                if c[0] == "call" and c[2] and pmatch("Q_m.shape.width // Q_g", c[2][0]) is not None:
+                    sized_in_bits = True
+                    site = s.site
+    n += 1
+    ctx.check(not (cast and sized_in_bits), "C23.granularity-units", site, "WritePort.en", found="row shape stored as Shape.cast(shape); enable sized as shape.width // granularity (bit groups)" if cast and sized_in_bits else "enable sized from the uncast shape",
+              required="one enable bit per granule as amaranth.lib.memory counts them: `granularity` ELEMENTS of an ArrayLayout row, bits of a plain row")
     # overrides of the factories in the concrete memories hand every option on to the base factory
     mi = ctx.repo.module(REL)
     quals = [f"{cn_}.{mn_}" for cn_, ci_ in sorted(mi.classes.items()) for mn_ in sorted(ci_.methods) if mn_ in ("read_port", "write_port") and cn_ != "BaseMultiportMemory"]
